@@ -5,6 +5,8 @@ lazy; on accept the returned object equals the input (minus columns dropped by s
 """
 from __future__ import annotations
 
+from hypothesis import strategies as st
+
 from .. import fp, gen, known, refmodel, spec as sp
 from ..core import Eval, Family
 
@@ -82,6 +84,12 @@ def evaluate(case):
     for k in kinds:
         ev.labels.append("has:" + k.split(":")[0] if k.startswith("check:") else "has:" + k)
     ev.nontrivial = len(kinds) >= 2 and len(ref.errors) <= 2
+    uq = spec.get("unique") or []
+    if uq and not all(isinstance(x, str) for x in uq):
+        tn = [t["name"] for t in table["columns"]]
+        ev.labels.append("nested:sets=%d" % len(uq))
+        if not any(x in tn for x in uq[0]) and any(x in tn for g in uq[1:] for x in g):
+            ev.labels.append("nested:absent-set-first")
     before = fp.snapshot(data)
     for lazy in (False, True):
         o = fp.outcome(lambda: schema.validate(data, lazy=lazy))
@@ -267,6 +275,38 @@ def eval_revalidate(case):
     return ev
 
 
+# ------------------------------------------------------------------ several joint-uniqueness constraints
+
+
+@st.composite
+def strat_nested_unique(draw):
+    """DataFrameSchema(unique=[[...], [...]]): several column sets, each of which has to be jointly unique.  Sets may
+    name optional columns that are absent from the data (nothing to compare for such a set; the others still apply)."""
+    import copy
+
+    case = copy.deepcopy(draw(gen.repaired_case()))
+    spec = case["spec"]
+    if spec.get("kind", "dataframe") != "dataframe":
+        return case
+    tnames = [t["name"] for t in case["table"]["columns"]]
+    plain = [c["name"] for c in spec["columns"] if not c.get("regex")]
+    if draw(st.booleans()) and "zq" not in plain and "zq" not in tnames:
+        spec["columns"].append({"name": "zq", "dtype": None, "nullable": True, "unique": False, "checks": [],
+                                "required": False})
+        plain.append("zq")
+    present = [n for n in plain if n in tnames and tnames.count(n) == 1]
+    absent = [n for n in plain if n not in tnames]
+    if not present:
+        return case
+    groups = []
+    for _ in range(draw(st.integers(2, 3))):
+        pool = draw(st.sampled_from([present, present, absent or present, present + absent]))
+        k = draw(st.integers(1, min(2, len(pool))))
+        groups.append(list(draw(st.permutations(pool)))[:k])
+    spec["unique"] = groups
+    return case
+
+
 FAMILIES = [
     Family("frames", evaluate, strategy=lambda: gen.repaired_case(), n_quick=1400, n_thorough=6000, shards_quick=4,
            shards_thorough=16,
@@ -274,6 +314,8 @@ FAMILIES = [
                             "has:frame:ordered", "has:unique", "has:check"]),
     Family("strings", evaluate, strategy=strat_strings, n_quick=600, n_thorough=3000, shards_quick=2, shards_thorough=8,
            required_labels=["ref=accept", "ref=reject", "has:check"]),
+    Family("nested_unique", evaluate, strategy=strat_nested_unique, n_quick=500, n_thorough=3000, shards_quick=2,
+           shards_thorough=8, required_labels=["reason=DUPLICATES", "ref=accept", "nested:absent-set-first"]),
     Family("revalidate", eval_revalidate, strategy=strat_revalidate, n_quick=800, n_thorough=3000, shards_quick=3,
            shards_thorough=12, required_labels=["ref2=reject", "ref2=accept", "first=inplace", "kind=series"]),
 ]
